@@ -7,8 +7,11 @@ head = subprocess.check_output(["git", "-C", "/repo", "rev-parse", "--short", "H
 kept, dropped = [], []
 for r in res:
     sid = r["id"]
-    prop, k = sid.split("-")
-    src = "/tmp/seed/%s/%s" % (prop, k)
+    tag, k = sid.split("-")
+    prop = tag.lstrip("U")
+    src = "/tmp/seed/%s/%s" % (tag, k)
+    if not os.path.isdir(src):
+        continue  # results of an earlier round whose scratch directory is gone: already kept
     ok = r.get("suite_passes_with_change") and r.get("demo_fails_with_change") and r.get("demo_passes_without_change")
     if not ok:
         dropped.append((sid, r.get("error") or "not confirmed: suite=%s demo_fails=%s demo_passes_clean=%s" % (
